@@ -106,10 +106,10 @@ def sh(cmd, cwd=None, env=None, timeout=None):
 def nextest(wt, extra=""):
     for attempt in range(3):
         rc, out = sh(f"cargo nextest run --workspace --no-fail-fast --test-threads 8 --offline {extra}", cwd=wt)
-        passed = len([l for l in out.splitlines() if re.match(r"\s+PASS", l) and "::demo " not in l])
+        passed = len(set(l.split("]")[-1].strip() for l in out.splitlines() if re.match(r"\s+(PASS|LEAK)", l) and "::demo " not in l))
         failed = sorted(set(l.split("]")[-1].strip() for l in out.splitlines() if re.match(r"\s+FAIL", l) and "::demo " not in l))
         demo_fail = sorted(set(l.split("]")[-1].strip() for l in out.splitlines() if re.match(r"\s+FAIL", l) and "::demo " in l))
-        demo_pass = len([l for l in out.splitlines() if re.match(r"\s+PASS", l) and "::demo " in l])
+        demo_pass = len(set(l.split("]")[-1].strip() for l in out.splitlines() if re.match(r"\s+(PASS|LEAK)", l) and "::demo " in l))
         # the repository's own 30 ms timer test is load-sensitive: retry when it is the only failure
         if failed == [] or not all("test_query_timer" in f for f in failed):
             break
